@@ -587,7 +587,7 @@ def _emit_impl_class(w, case, iface, plans):
     w.w("  return zo;")
     w.w("}")
     for _, m, _ in idl.flat_methods(case, iface):
-        if m.get("optional"):
+        if m.get("optional") and not m.get("implemented"):
             continue          # left to the generated default (Object_ERROR_INVALID)
         _emit_impl_method(w, case, iface, m, plans[(iface, m["name"])])
     w.ind -= 1
